@@ -31,6 +31,8 @@ CONSTANTS W,           \* digit bits: 8 (tiny-world builds; 4-bit comb window = 
 (* when m - fa >= W (true for every shipped polynomial: 283 - 12 >= 64, and for the tiny worlds 17 - 9 >= 8); *)
 (* the sets cover m - e = 0 (mod W) (whole-digit shifts), exponents at and across digit boundaries.           *)
 Fields == CASE Level = 1 -> {<<9, 1, 0, 0>>}
+            [] Level = 4 -> {<<9, 1, 0, 0>>, <<9, 4, 0, 0>>, <<9, 5, 0, 0>>, <<9, 4, 2, 1>>, <<9, 4, 3, 1>>, <<9, 5, 3, 2>>,
+                             <<9, 5, 4, 1>>}
             [] Level = 2 -> {<<9, 1, 0, 0>>, <<9, 4, 0, 0>>, <<9, 5, 0, 0>>, <<9, 4, 2, 1>>, <<9, 4, 3, 1>>, <<9, 5, 3, 2>>,
                              <<9, 5, 4, 1>>, <<10, 3, 0, 0>>, <<10, 3, 2, 1>>, <<10, 5, 2, 1>>, <<10, 6, 5, 2>>}
             [] OTHER -> {<<9, 1, 0, 0>>, <<9, 4, 0, 0>>, <<9, 5, 0, 0>>, <<9, 4, 2, 1>>, <<9, 4, 3, 1>>, <<9, 5, 3, 2>>,
@@ -45,6 +47,10 @@ Shr(d, n) == d \div Pow2(n)
 
 RECURSIVE ToDigs(_, _)
 ToDigs(n, k) == IF k = 0 THEN <<>> ELSE <<n % DM>> \o ToDigs(n \div DM, k - 1)
+(* the value of a digit vector as a BigNat *)
+RECURSIVE PackR(_, _)
+PackR(c, i) == IF i > Len(c) THEN <<>> ELSE BAdd(BFromNat(c[i]), BShl(PackR(c, i + 1), W))
+ValOf(c) == IF W = 8 THEN BNorm(c) ELSE PackR(c, 1)
 (* xor d into digit index i (0-based) of vector c *)
 XorAt(c, i, d) == [c EXCEPT ![i + 1] = c[i + 1] ^^ d]
 
@@ -179,9 +185,9 @@ MulOk ==
             LET a == ToDigs(v * 16 + lo, D) IN
             \* one digit: EVERY second operand; more digits: the operands Bs
             /\ \A bn \in (IF D = 1 THEN 0..(DM - 1) ELSE Bs) : bn < Pow2(W * D) =>
-                    BNorm(MulnLow(a, ToDigs(bn, D), D)) = GMulPoly(BNorm(a), BFromNat(bn))
+                    ValOf(MulnLow(a, ToDigs(bn, D), D)) = GMulPoly(ValOf(a), BFromNat(bn))
             /\ \A dg \in Digs1 : dg < DM =>
-                    BNorm(Mul1Low(a, dg, D)) = GMulPoly(BNorm(a), BFromNat(dg))
+                    ValOf(Mul1Low(a, dg, D)) = GMulPoly(ValOf(a), BFromNat(dg))
 (* 4096 values per state: v supplies the high bits, the low 12 bits are enumerated here *)
 RdcOk ==
     (go /\ mode = "rdc") =>
@@ -192,17 +198,19 @@ RdcOk ==
         IN  \A lo \in 0..4095 :
                 LET t == ToDigs(v * 4096 + lo, 2 * D)
                     c == RdcnLow(t, m, es, D)
-                IN  BNorm(c) = GModPoly(BNorm(t), f) /\ BBits(BNorm(c)) <= m
+                IN  ValOf(c) = GModPoly(ValOf(t), f) /\ BBits(ValOf(c)) <= m
 Rdc1Ok ==
     (go /\ mode = "rdc1") =>
         LET m == fld[1]
             D == DigsOf(fld)
             es == <<fld[2], fld[3], fld[4]>>
             f == PolyF(fld)
-        IN  \A lo \in 0..4095 :
+        \* every value of the top 12 bits (the extra digit and the bits around x^m) x 24 patterns below
+        IN  \A lo \in {0, 1, 2, 4095, 4094, 2730, 1365, 2048, 2049, 1024, 512, 256, 255, 128, 127, 291, 3822, 3003,
+                        1911, 64, 32, 16, 8, 4} :
                 LET t == ToDigs(v * 4096 + lo, D + 1)
                     c == Rdc1Low(t, m, es, D)
-                IN  BNorm(c) = GModPoly(BNorm(t), f) /\ BBits(BNorm(c)) <= m
+                IN  ValOf(c) = GModPoly(ValOf(t), f) /\ BBits(ValOf(c)) <= m
 
 ASSUME \A c \in Fields : GIsIrreducible(PolyF(c)) /\ c[1] % W # 0 /\ c[1] - c[2] >= W
 =============================================================================
